@@ -169,6 +169,32 @@ Theorem C06_event_filtered : forall st t k i, st_panicked st = false -> existsb 
 Proof. exact fevent_spec. Qed.
 Print Assumptions C06_event_filtered.
 
+(** An explicit parent overrides the contextual one — also when it does not resolve: an event whose explicit parent Id is
+    stale (OEventQ: the retained Id of span number q; the span has closed, its slot may have been recycled), or, for the
+    filtered layer, names a span its filter disabled, has NO span and an empty scope, whatever span is current on the thread
+    (seeded mutant C06-H fell back to the current span). *)
+Theorem C06_event_parent_unresolved : forall st t q i j p, st_panicked st = false -> eff st t false = Some i ->
+  find_seq q (st_created st) = Some (j, p) ->
+  (lookup st i p = None -> exists cur d fo, step st (OEventQ t q) = (st, [OEvent i cur None [] [] d; fo])) /\
+  (enabled_for st i p = false -> exists eo cur, step st (OEventQ t q) = (st, [eo; OFEvent i cur None [] []])).
+Proof. exact eventq_unresolved. Qed.
+Print Assumptions C06_event_parent_unresolved.
+
+Theorem C06_event_parent_resolved : forall st t q i j p, st_panicked st = false -> eff st t false = Some i ->
+  find_seq q (st_created st) = Some (j, p) -> lookup st i p <> None -> enabled_for st i p = true ->
+  exists cur fcur d, step st (OEventQ t q) =
+    (st, [OEvent i cur (seq_at st i p) (scope st i p) (rev (scope st i p)) d;
+          OFEvent i fcur (seq_at st i p) (fscope st i p) (rev (fscope st i p))]).
+Proof. exact eventq_resolved. Qed.
+Print Assumptions C06_event_parent_resolved.
+
+(** along every history: once a span has been reported closed, its Id never resolves again, for any layer *)
+Theorem C06_closed_parent_unresolved : forall layers g h, Config_ok layers -> WellFormed layers g h -> OwnDefault layers g h ->
+  forall i p q l, In (i, p, q) (st_created (final (init layers g) h)) -> closed_n l q (trace (init layers g) h) = 1 ->
+  explicit_parent (final (init layers g) h) i p = None /\ explicit_parent_filtered (final (init layers g) h) i p = None.
+Proof. exact closed_parent_unresolved. Qed.
+Print Assumptions C06_closed_parent_unresolved.
+
 Theorem C06_filter_bit_at_creation : forall st t h k a, st_panicked st = false ->
   existsb odd_hid (op_hids (ONewSpan t h k a)) = false ->
   st_count st < st_count (fst (step st (ONewSpan t h k a))) ->
